@@ -192,6 +192,26 @@ def evaluate(case, d, label=""):
         if u[2] != v[2] or (u[0], u[1]) != (v[0], v[1]):
             nontrivial = True
         values.append((u, v, duv))
+    # the same values observed through ONE continuum object whose category set grows in place between evaluations
+    # (dissimilarities without a category table take the categories from the continuum they are given): units are
+    # added in decreasing label order, so that every newly arriving label sorts BEFORE the ones already known
+    if cats_sorted is None and values:
+        order = sorted(values, key=lambda t: max(t[0][2] or "", t[1][2] or ""), reverse=True)
+        c = pa.Continuum()
+        done = []
+        for k, (u, v, _) in enumerate(order):
+            c.add("a", Segment(u[0], u[1]), u[2])
+            c.add("b", Segment(v[0], v[1]), v[2])
+            done.append((u, v))
+            if k % 2 == 0 and k != len(order) - 1:
+                continue
+            uas = [pa.UnitaryAlignment([("a", pa.Unit(Segment(x[0], x[1]), x[2])), ("b", pa.Unit(Segment(y[0], y[1]), y[2]))]) for x, y in done]
+            got = lib_call("compute_disorder[growing continuum]", d.compute_disorder, pa.Alignment(uas, continuum=c))
+            for (x, y), g in zip(done, got):
+                r32 = _ref32(spec, x, y)
+                if not oracle.close(float(g), r32):
+                    raise Violation(label + "compiled-form-vs-formula:after-categories-grew-in-place", f"compiled={float(g)} formula={r32} u={x} v={y} spec={_short(spec)}")
+        classes.append("continuum-categories-grown-in-place")
     # ordinal / numerical: proportionality to the distance of positions
     src = spec["cat"] if spec["kind"] == "combined" else spec
     if src and src["kind"] in ("ordinal", "numerical") and spec["kind"] != "combined":
